@@ -75,7 +75,10 @@ var headRe = regexp.MustCompile(`^(requires|ensures|invariant|decreases)(\[[^\]]
 type PropertyDecl struct {
 	ID    string
 	Roots []string
-	Pkg   string
+	// Callers: every function (of the loaded packages) that statically calls one of these is a root as well;
+	// one without a contract is a binding failure (e.g. a new producer-side use of the out ring).
+	Callers []string
+	Pkg     string
 }
 
 type ContractSet struct {
@@ -213,7 +216,9 @@ func (cs *ContractSet) addClause(cur **Contract, pkgPath, pos, text string) erro
 			return fmt.Errorf("%s: bad property clause", pos)
 		}
 		id := fields[1]
-		r := strings.TrimSpace(strings.TrimPrefix(strings.TrimSpace(strings.TrimPrefix(rest, id)), "roots"))
+		r0 := strings.TrimSpace(strings.TrimPrefix(rest, id))
+		isCallers := strings.HasPrefix(r0, "callers")
+		r := strings.TrimSpace(strings.TrimPrefix(strings.TrimPrefix(r0, "roots"), "callers"))
 		pd := cs.Props[id]
 		if pd == nil {
 			pd = &PropertyDecl{ID: id}
@@ -222,7 +227,11 @@ func (cs *ContractSet) addClause(cur **Contract, pkgPath, pos, text string) erro
 		for _, x := range strings.Split(r, ",") {
 			x = strings.TrimSpace(x)
 			if x != "" {
-				pd.Roots = append(pd.Roots, qualify(pkgPath, x))
+				if isCallers {
+					pd.Callers = append(pd.Callers, qualify(pkgPath, x))
+				} else {
+					pd.Roots = append(pd.Roots, qualify(pkgPath, x))
+				}
 			}
 		}
 		return nil
